@@ -96,25 +96,35 @@ func (p *TMultiUDPTransport) RemainingBytes() uint64 {
 
 // Write writes specified buf to the write buffer of underlying transports
 func (p *TMultiUDPTransport) Write(buff []byte) (int, error) {
-	n := 0
+	// Every destination sees every write, also after one of them failed:
+	// they all buffer the same message and must stay in step (a refused
+	// write marks the message as incomplete on each of them).
+	var (
+		n        int
+		firstErr error
+	)
 	for _, trans := range p.transports {
 		written, err := trans.Write(buff)
 		if err != nil {
-			return n, err
+			if firstErr == nil {
+				firstErr = err
+			}
+			continue
 		}
-		if written > n {
+		if firstErr == nil && written > n {
 			n = written
 		}
 	}
-	return n, nil
+	return n, firstErr
 }
 
-// Flush flushes the write buffer of the underlying transports
+// Flush flushes the underlying transports
 func (p *TMultiUDPTransport) Flush() error {
+	var firstErr error
 	for _, trans := range p.transports {
-		if err := trans.Flush(); err != nil {
-			return err
+		if err := trans.Flush(); err != nil && firstErr == nil {
+			firstErr = err
 		}
 	}
-	return nil
+	return firstErr
 }
